@@ -581,3 +581,140 @@ def rule_txnoresp(ctx, R):
                       b.loc((hits or regs)[0]), witness=ctx.cg.path(he, {fn}) or [])
         else:
             R.trivial()
+
+
+# ---------------------------------------------------------------------------------------
+# C20 codec tables
+
+PARSER = "protocol::parser::"
+
+
+def rule_codec_table(ctx, R):
+    """type byte written by the serializer for each variant <-> variant built by the parser for
+    that byte"""
+    import rules_rdb
+    b = ctx.prog.need(SER)
+    sw = rules_rdb.discr_switch_on(ctx, b, "protocol::resp::RespFrame")
+    if not sw:
+        R.broken.append("variant switch of serialize_resp_frame not found"); return
+    i, names, other, pl = max(sw, key=lambda x: len(x[1]))
+    ser = {}
+    for v, tgt in names.items():
+        reg = cfg.edge_dom_set(b, i, tgt)
+        first = None
+        for x in [y for y in cfg.rpo(b) if y in reg]:
+            t = b.term(x)
+            if t["k"] == "call" and (WRITE_ALL.search(t["def"] or "") or WRITE_ALL.search(callee(t))):
+                cb = shared.resolve_const_bytes(b, t["a"][1]) if len(t["a"]) > 1 else None
+                if cb:
+                    first = cb[0]; break
+        if first is not None:
+            ser[v] = first
+    R.floor("serializer_variants_with_type_byte", len(ser))
+    pf = ctx.prog.need(PARSER + "parse_frame")
+    # switch on data[0]
+    psw = None
+    for x, bb in enumerate(pf.bbs):
+        t = bb["t"]
+        if t["k"] == "switch" and t.get("dty") == "u8" and len(t["ts"]) >= 5:
+            psw = (x, t)
+    if psw is None:
+        R.broken.append("type-byte switch of parse_frame not found"); return
+    x, t = psw
+    par = {}
+    for v, tgt in t["ts"]:
+        reg = cfg.edge_dom_set(pf, x, tgt)
+        built = set()
+        for y in reg:
+            tt = pf.term(y)
+            if tt["k"] == "call" and callee(tt).startswith(PARSER):
+                for f in ctx.cg.reach([callee(tt)], stop={PARSER + "parse_frame"}):
+                    fb = ctx.prog.bodies.get(f)
+                    if fb is None or not f.startswith(PARSER) or f == PARSER + "parse_frame":
+                        continue
+                    for bb2 in fb.bbs:
+                        for st in bb2["s"]:
+                            if st["k"] == "=" and st["r"]["k"] == "agg" and st["r"]["a"].startswith("protocol::resp::RespFrame::"):
+                                built.add(st["r"]["a"].rsplit("::", 1)[-1])
+        par[chr(v)] = built
+    R.floor("parser_type_bytes", len(par))
+    for v, c in sorted(ser.items()):
+        built = par.get(c)
+        R.inst(SER, "type-byte:" + v, {"variant": v, "byte": c, "parser_builds": sorted(built) if built is not None else None})
+        if built is None:
+            R.finding(SER, "type-byte:%s:unknown-to-parser" % v, "RespFrame::%s is serialised with type byte %r which the parser does not accept" % (v, c), b.loc())
+        elif v not in built:
+            R.finding(SER, "type-byte:%s:parsed-as-other" % v, "RespFrame::%s is serialised with type byte %r but the parser builds %s for it: the value does not round-trip" % (v, c, sorted(built)), b.loc())
+    # default arm is an error
+    oreg = cfg.edge_dom_set(pf, x, t["o"])
+    err = any(st["k"] == "=" and st["r"]["k"] == "agg" and st["r"]["a"] in ("error::FerrousError::Protocol", "std::result::Result::Err") for y in oreg for st in pf.stmts(y))
+    R.inst(pf.fn, "unknown-type-byte", {"is_error": err})
+    if not err:
+        R.finding(pf.fn, "unknown-type-byte:accepted", "an unknown type byte is not answered with an error", pf.loc())
+    # null forms
+    for fn, const in ((PARSER + "parse_bulk_string", "$-1\r\n"), (PARSER + "parse_array", "*-1\r\n")):
+        pb = ctx.prog.need(fn)
+        has = any(st["k"] == "=" and st["r"]["k"] == "bin" and st["r"]["op"] == "Eq" and (const_int(st["r"]["a"]) == -1 or const_int(st["r"]["b"]) == -1) for bb2 in pb.bbs for st in bb2["s"])
+        wrote = False
+        for y, bb2 in enumerate(b.bbs):
+            tt = bb2["t"]
+            if tt["k"] == "call" and len(tt["a"]) > 1:
+                cb = shared.resolve_const_bytes(b, tt["a"][1])
+                if cb == const:
+                    wrote = True
+        R.inst(fn, "null-form", {"serializer_writes": wrote, "parser_tests_minus_one": has})
+        if not (has and wrote):
+            R.finding(fn, "null-form:mismatch", "the null form %r is not mirrored between serializer and parser" % const, pb.loc())
+    # no unwrap/expect on the parsing path
+    n = 0
+    for fn, fb in ctx.prog.bodies.items():
+        if fn.startswith(PARSER) and "::tests::" not in fn:
+            for y, tt in fb.calls():
+                if re.search(r"::(unwrap|expect)$", tt["f"] or "") and not tt.get("exp"):
+                    n += 1
+                    R.finding(fn, "unwrap-on-parse-path", "%s unwraps on the parsing path (line %d): arbitrary bytes must give a frame, a request for more data or an error" % (fn.split("::")[-1], fb.bb_line(y)), fb.loc(y))
+    R.inst(PARSER, "unwraps", {"count": n})
+
+
+def rule_codec_pos(ctx, R):
+    """the parse position advances by a parsed frame's size only on the Ok(Some) edge"""
+    b = ctx.prog.need("protocol::parser::RespParser::parse")
+    pfc = [i for i, t in b.calls() if callee(t) == PARSER + "parse_frame"]
+    R.floor("parse_frame_calls", len(pfc))
+    stores = []
+    for i, bb in enumerate(b.bbs):
+        for st in bb["s"]:
+            if st["k"] == "=" and [e for e in st["l"]["p"] if isinstance(e, dict) and e.get("f") == "protocol::parser::RespParser.position"]:
+                stores.append((i, st))
+    for c in pfc:
+        rs = shared.result_switch(b, c)
+        if rs is None:
+            R.finding(b.fn, "parse_frame:result-ignored", "the incremental parser ignores parse_frame's result", b.loc(c)); continue
+        okreg = set()
+        for o in rs["ok"]:
+            okreg |= cfg.fwd(b, [o], cut=rs["fail"])
+        failreg = set()
+        for f0 in rs["fail"]:
+            failreg |= cfg.dom_set(b, f0)
+        # Some edge
+        some = None
+        for y in sorted(okreg):
+            tt = b.term(y)
+            if tt["k"] == "switch":
+                dl = op_local(tt["d"])
+                for st in b.stmts(y):
+                    if st["k"] == "=" and st["l"]["l"] == dl and st["r"]["k"] == "discr" and b.locals[st["r"]["p"]["l"]].startswith("std::option::Option<(protocol::resp::RespFrame"):
+                        some = (y, dict(tt["ts"]).get(1, tt["o"]), dict(tt["ts"]).get(0))
+        bad_fail = [i for i, st in stores if i in failreg]
+        after = [(i, st) for i, st in stores if i in cfg.fwd(b, [c]) and i != c]
+        none_adv = []
+        if some:
+            none_reg = cfg.edge_dom_set(b, some[0], some[2]) if some[2] is not None else set()
+            none_adv = [i for i, st in after if i in none_reg]
+        R.inst(b.fn, "position-advance", {"stores_after_parse": len(after), "on_error_edge": len(bad_fail), "on_need_more_data_edge": len(none_adv)})
+        if bad_fail:
+            R.finding(b.fn, "position:advanced-on-error", "the parser moves its position on the error edge: bytes are consumed without being reported", b.loc(bad_fail[0]))
+        if none_adv:
+            R.finding(b.fn, "position:advanced-on-incomplete", "the parser moves its position although the frame is incomplete: the next chunk is parsed from the middle of the frame (chunking changes the result)", b.loc(none_adv[0]))
+        if not after:
+            R.finding(b.fn, "position:never-advanced", "the parser never advances past a parsed frame", b.loc(c))
